@@ -150,5 +150,10 @@ func (f Descent) locate(pp Expr, data any, rest Expr, max int) (locs []Expr) {
 
 // Walk each element in the tree of elements.
 func (f Descent) Walk(rest, path Expr, nodes []any, cb func(path Expr, nodes []any)) {
+	// A descent matches zero or more levels so the rest of the path applies
+	// to the current node as well as to all of its descendants.
+	if 0 < len(rest) {
+		rest[0].Walk(rest[1:], path, nodes, cb)
+	}
 	wildWalk(rest, path, nodes, cb, f)
 }
